@@ -62,26 +62,29 @@ Table(e, envs) == [idx \in 1 .. Len(envs) |-> Out(Eval(e, envs[idx]))]
 Row(e, names, ET) == LET k == UsedCount(e, names) IN [e |-> e, k |-> k, tab |-> Table(e, ET[k + 1])]
 
 ---------------------------------------------------------------------------
-(* generator shells: 1-2 for-clauses, 0-2 ifs each, element and conditions from Exprs; at most n operator nodes
-   in total.  The first iterable is T; the second one U or x.p. *)
-Iter2 == {N("U"), <<"Attr", N("x"), "p">>}
+(* generator shells: 1-2 for-clauses, 0-2 ifs each, element and conditions from ExprSeq; at most n operator nodes
+   in total.  The first iterable is T; the second one U or x.p.  (Sequences and index arithmetic, as in PyExpr.) *)
+Iter2 == <<N("U"), <<"Attr", N("x"), "p">>>>
 
-(* sequences of `cnt` expressions with exactly `total` operator nodes, from bySize[i+1] = set of trees of size i *)
+Cross(X, Y, F(_, _)) == [p \in 1 .. (Len(X) * Len(Y)) |-> F(X[((p - 1) \div Len(Y)) + 1], Y[((p - 1) % Len(Y)) + 1])]
+
+(* sequences of `cnt` expressions with exactly `total` operator nodes; bySize[i + 1] = the trees of size i *)
 RECURSIVE ExprSeqs(_, _, _)
 ExprSeqs(bySize, cnt, total) ==
-    IF cnt = 0 THEN (IF total = 0 THEN {<<>>} ELSE {})
-    ELSE UNION {{<<e>> \o rest : e \in bySize[i + 1], rest \in ExprSeqs(bySize, cnt - 1, total - i)} : i \in 0 .. total}
+    IF cnt = 0 THEN (IF total = 0 THEN <<<<>>>> ELSE <<>>)
+    ELSE LET Part(i) == Cross(bySize[i + 1], ExprSeqs(bySize, cnt - 1, total - i), LAMBDA e, rest : <<e>> \o rest)
+         IN CatRange(Part, 0, total)
 
-GenShells(A, n) ==
-    LET ls == Levels(A, n)
-        bySize == [i \in 1 .. (n + 1) |-> {x[1] : x \in ls[i][1]}]
-        one == UNION {UNION {{<<"Gen", s[1], <<<<"x", N("T"), SubSeq(s, 2, 1 + n1)>>>>>> : s \in ExprSeqs(bySize, 1 + n1, tot)}
-                             : n1 \in 0 .. 2} : tot \in 0 .. n}
-        two == UNION {UNION {UNION {UNION {
-                   {<<"Gen", s[1], <<<<"x", N("T"), SubSeq(s, 2, 1 + n1)>>, <<"y", it, SubSeq(s, 2 + n1, 1 + n1 + n2)>>>>>>
-                        : s \in ExprSeqs(bySize, 1 + n1 + n2, tot)}
-                   : it \in Iter2} : n2 \in 0 .. 2} : n1 \in 0 .. 2} : tot \in 0 .. n}
-    IN one \cup two
+Gen1(s, n1) == <<"Gen", s[1], <<<<"x", N("T"), SubSeq(s, 2, 1 + n1)>>>>>>
+Gen2(s, n1, n2, it) == <<"Gen", s[1], <<<<"x", N("T"), SubSeq(s, 2, 1 + n1)>>, <<"y", it, SubSeq(s, 2 + n1, 1 + n1 + n2)>>>>>>
+
+GenShellSeq(A, n) ==
+    LET bySize == TLCEval([i \in 1 .. (n + 1) |-> ExprSeqExact(A, i - 1)])
+        Slots(cnt) == LET Tot(t) == ExprSeqs(bySize, cnt, t) IN TLCEval(CatRange(Tot, 0, n))
+        One(n1) == LET ss == Slots(1 + n1) IN [i \in 1 .. Len(ss) |-> Gen1(ss[i], n1)]
+        Two(c) == LET n1 == c \div 6  n2 == (c \div 2) % 3  it == Iter2[(c % 2) + 1]  ss == Slots(1 + n1 + n2)
+                  IN [i \in 1 .. Len(ss) |-> Gen2(ss[i], n1, n2, it)]
+    IN CatRange(One, 0, 2) \o CatRange(Two, 0, 17)
 
 (* truth table of a clause's filter: TRUE / FALSE / abort *)
 CondTable(ifs, envs) == [idx \in 1 .. Len(envs) |-> Out(CondVal(ifs, 1, envs[idx]))]
@@ -97,25 +100,32 @@ GenRow(g, names, ET) ==
                  LET r == EvalGen(g, RunEnvs[ri]) IN [out |-> [i \in 1 .. Len(r.out) |-> Out(r.out[i])], stop |-> Out(r.stop)]]]
 
 ---------------------------------------------------------------------------
+(* part In.part of In.parts (contiguous, equal sizes) of an enumeration: how the harness splits the work over several TLC processes *)
+Slice(seq) == LET lo == (((In.part - 1) * Len(seq)) \div In.parts) + 1
+                  hi == (In.part * Len(seq)) \div In.parts
+              IN [i \in 1 .. (hi - lo + 1) |-> seq[lo + i - 1]]
+
 Result ==
-    CASE In.mode = "exprs" ->
+    CASE In.mode = "exprs" ->      \* a slice of the enumeration ExprSeq(alpha, n)
             LET A == Alphabets[In.alpha]
                 ET == EnvTable(A.names, ValueSets[In.vals])
-                es == IF In.part = "small" THEN Exprs(A, In.n) ELSE ExprsRooted(A, In.n, SeqSet(In.roots))
-            IN {Row(e, A.names, ET) : e \in es}
+                es == Slice(ExprSeq(A, In.n))
+            IN [i \in 1 .. Len(es) |-> Row(es[i], A.names, ET)]
       [] In.mode = "trees" ->
             LET ET == EnvTable(In.names, ValueSets[In.vals]) IN [i \in 1 .. Len(In.trees) |-> Row(In.trees[i], In.names, ET)]
       [] In.mode = "gens" ->
             LET A == Alphabets[In.alpha]
                 ET == EnvTable(A.names, ValueSets[In.vals])
-            IN {GenRow(g, A.names, ET) : g \in GenShells(A, In.n)}
+                gs == Slice(GenShellSeq(A, In.n))
+            IN [i \in 1 .. Len(gs) |-> GenRow(gs[i], A.names, ET)]
       [] In.mode = "gentrees" ->
             LET ET == EnvTable(In.names, ValueSets[In.vals]) IN [i \in 1 .. Len(In.trees) |-> GenRow(In.trees[i], In.names, ET)]
-      [] In.mode = "kinds" ->
-            LET A == Alphabets[In.alpha] IN <<[un |-> A.un, bin |-> A.bin, ter |-> A.ter, names |-> A.names]>>
-      [] In.mode = "count" ->
+      [] In.mode = "count" ->      \* sizes of the spaces; distinct = cardinality of the set (the enumeration may list a tree twice)
             LET A == Alphabets[In.alpha] IN
-            [exprs |-> [i \in 0 .. In.n |-> Cardinality(Exprs(A, i))], gens |-> IF In.gens THEN Cardinality(GenShells(A, In.gn)) ELSE 0]
+            <<[exprs |-> Len(ExprSeq(A, In.n)),
+               distinct |-> IF In.distinct THEN Cardinality(Exprs(A, In.n)) ELSE 0,
+               gens |-> IF In.gn >= 0 THEN Len(GenShellSeq(A, In.gn)) ELSE 0,
+               un |-> A.un, bin |-> A.bin, ter |-> A.ter, names |-> A.names]>>
 
 ASSUME JsonSerialize(IOEnv.OUT, [rows |-> Result])
 =============================================================================
